@@ -95,10 +95,10 @@ class C10(VectorEngine):
         "the open deviation fp_digit_noise is a relation (numeral = rounding of some value within 1e-16 of x, only for |x| < 4 with more than 40 fractional digits), not a function",
     ]
     mc_runs = {
-        "quick": [("MC_Numfmt", "MC_Numfmt_q.cfg", {"workers": 8}), ("MC_Numfmt", "MC_Numfmt_cap.cfg", {"workers": 8}),
-                  ("MC_Numfmt", "MC_Numfmt_deepq.cfg", {"workers": 8})],
-        "thorough": [("MC_Numfmt", "MC_Numfmt_t.cfg", {"workers": 8, "timeout": 3000}), ("MC_Numfmt", "MC_Numfmt_cap.cfg", {"workers": 8}),
-                     ("MC_Numfmt", "MC_Numfmt_deep.cfg", {"workers": 8, "timeout": 3000})],
+        "quick": [("MC_Numfmt", "MC_Numfmt_q.cfg", {"workers": 4}), ("MC_Numfmt", "MC_Numfmt_cap.cfg", {"workers": 4}),
+                  ("MC_Numfmt", "MC_Numfmt_deepq.cfg", {"workers": 4})],
+        "thorough": [("MC_Numfmt", "MC_Numfmt_t.cfg", {"workers": 4, "timeout": 3000}), ("MC_Numfmt", "MC_Numfmt_cap.cfg", {"workers": 4}),
+                     ("MC_Numfmt", "MC_Numfmt_deep.cfg", {"workers": 4, "timeout": 3000})],
     }
     random_n = {"quick": 3000, "thorough": 120000}
 
